@@ -35,6 +35,8 @@ with open(os.path.join(HERE, 'data', 'gates.json')) as _f:
     GATES = json.load(_f)
 # need_8962 leads to the unsupported Schedule 2 two lines later (1040.schedule_2_part_i_needed -> 1040.17 -> abort):
 # end-to-end only, no single owning line ends not-implemented
+with open(os.path.join(HERE, 'data', 'gate_witnesses_solo.json')) as _f:
+    WITNESSES_SOLO = json.load(_f)       # per (gate, line): the recorded assignment with the fewest other boxes ticked
 with open(os.path.join(HERE, 'data', 'gate_witnesses.json')) as _f:
     WITNESSES = json.load(_f)
 EXTRA = {'1040.need_8962': {'declares_when': True, 'owning_lines': []}}
@@ -135,10 +137,16 @@ def consulted_gates(year, r, flips):
     form reading the mirrored value is"""
     cat = catalog.get(year)
     consulted = set()
+    listed = gates_for(year)
     for name, reads, _ in r.trace.attempts:
         lform = name.split('.')[0]
         for kind, key, outcome, val in reads:
             if outcome != 'ok' or key not in flips or val is not flips[key]:
+                continue
+            # only a line for which the input *is* a gate consults it; other lines may use the same answer as
+            # data (NC Schedule A reads 1040.standard_deduction_exceptions to set the NC standard deduction to 0)
+            owners = listed.get(scenario.norm_key(key), {}).get('owning_lines')
+            if owners and scenario.norm_key(name) not in {scenario.norm_key(o) for o in owners}:
                 continue
             kform = key.split('.')[0]
             cls = cat.cmap.get(kform.split(':')[0])
@@ -275,6 +283,22 @@ def shard_isolated(ctx, k, payload):
                     if out == 'value':
                         ctx.violation(f'{year}:line-computes-with-gate:{gate}', f'{year}: line {lname} read {gkey}={info["declares_when"]} and still produced the value {val!r} (reads: {[(k_, v_) for _, k_, v_ in log][:6]})',
                                       {'year': year, 'gate': gate, 'line': lname, 'mode': 'isolated', 'reads': {f'{kk}:{key}': v_ for kk, key, v_ in log}})
+            wit2 = None
+            for k_, v_ in WITNESSES_SOLO.items():
+                yy, gg, ll = k_.split('|')
+                if yy == str(year) and ll == lname and (gg == gkey or scenario.norm_key(gg) == gate) and v_ != wit:
+                    wit2 = v_
+                    if wit is None:
+                        gkey = gg
+                    break
+            if wit2 is not None:
+                # second recorded assignment: the gate reached with as few other boxes ticked as possible (its own branch)
+                before = seen['read']
+                hyp.run_data(lambda data: body(data, witness=wit2), 6, seed + 1)
+                ctx.count('isolated:solo_witness_runs')
+                if seen['read'] == before:
+                    ctx.violation(f'{year}:gate-dropped:{gate}', f'{year}: under the recorded single-box witness assignment, line {lname} no longer consults {gkey} - the gate was dropped or moved',
+                                  {'year': year, 'gate': gate, 'line': lname, 'mode': 'isolated'})
             if wit is not None:
                 # deterministic part: the recorded assignment under which this line consulted the gate at the pinned tree
                 before = seen['read']
@@ -385,8 +409,46 @@ def shard_limits(ctx, k, payload):
     hyp.run_data(body, n, seed)
 
 
+def shard_limit_probes(ctx, k, payload):
+    """status-indexed limits beyond which a line is not implemented (QBI income threshold, EIC income limits,
+    saver's credit limit, foreign tax without Form 1116): for every year x status the owning line, evaluated
+    on catalogue-typed mock stores with the driving amount anywhere on the unsupported side, must end
+    not-implemented. Exhaustive over (limit, year, status); the distance beyond the limit is drawn."""
+    from checks import c08
+    entries, n, seed = payload
+    for idx in entries:
+        e = c08.TABLE['amounts'][idx]
+        pr = e['probe']
+        for ys, by_status in e['values'].items():
+            year = int(ys)
+            for status in c08.ST:
+                amount = float(by_status[status])
+                line = c08.per_year(pr['line'], year)
+                reads = dict(pr.get('reads', {}))
+                reads.update(c08.status_read(year, status))
+                ni_above = pr['above'] == 'ni'
+
+                def body(data, year=year, status=status, amount=amount, line=line, reads=reads, ni_above=ni_above, e=e):
+                    dist = data.draw(st.sampled_from([0.01, 0.01, 1.0, 37.5, 1000.0])) if ni_above else data.draw(st.sampled_from([0.01, 0.01, 1.0, 37.5, min(1000.0, amount)]))
+                    x = round(amount + dist, 2) if ni_above else round(amount - dist, 2)
+                    kind, val = c08.evaluate(year, line, dict(reads, **{pr['driver']: x}), data.draw)
+                    ctx.case()
+                    if kind == 'ni':
+                        ctx.nt(f'limitprobe|{year}|{status}|{e["id"]}|{dist}')
+                        ctx.count('limit_probes:not_implemented')
+                    elif kind == 'value':
+                        ctx.violation(f'{year}:value-beyond-limit:{e["id"]}:{status}', f'{year} {status}: {line} with {pr["driver"]}={x} (limit {amount:g}, {e["id"]}) is on the unsupported side of the limit '
+                                      f'but the line produced the value {val!r} instead of declaring not-implemented', {'year': year, 'mode': 'limit_probe', 'id': e['id'], 'status': status, 'x': x})
+                    else:
+                        ctx.count('limit_probes:' + kind)
+                hyp.run_data(body, n, seed + idx)
+
+
 def run(ctx):
     quick = ctx.tier == 'quick'
+    from checks import c08
+    lp = [j for j, e in enumerate(c08.TABLE['amounts']) if e['probe']['kind'] == 'straddle' and 'ni' in (e['probe'].get('above'), e['probe'].get('below'))]
+    hyp.pmap(ctx, shard_limit_probes, [([j], 4 if quick else 40, ctx.seed * 7) for j in lp])
     reps = 2 if quick else 20
     payloads, iso = [], []
     total = 0
@@ -410,6 +472,11 @@ def run(ctx):
 
 
 def replay(ctx, case):
+    if case.get('mode') == 'limit_probe':
+        from checks import c08
+        j = [j_ for j_, e in enumerate(c08.TABLE['amounts']) if e['id'] == case['id']][0]
+        shard_limit_probes(ctx, 0, ([j], 12, 7))
+        return
     if case.get('mode') == 'isolated':
         year = case['year']
         shard_isolated(ctx, 0, (year, [case['gate']], 25, 17))
